@@ -27,7 +27,7 @@ ASSUMPTIONS = [
 BOOK = ("_NodeMixin__parent", "_NodeMixin__children")
 LINKS = ("SymlinkNode", "PlainLink", "PropLink", "SlotLink")
 NM_MIX = ["Node", "AnyNode", "PlainNM", "SymlinkNode", "EqNode", "FalsyNode", "LenNode", "SlotDictNM", "PlainLink", "PropLink", "SlotLink"]
-LM_MIX = ["SlotLM", "DictLM", "StrSlotLM"]
+LM_MIX = ["SlotLM", "DictLM", "StrSlotLM", "_UnderLM"]
 
 
 def make(clsname, idx, attrs, target):
@@ -41,6 +41,8 @@ def make(clsname, idx, attrs, target):
         return nodes.DictLM("d%d" % idx, **attrs)
     if clsname == "StrSlotLM":
         return nodes.StrSlotLM(["payload", idx, sorted(attrs.items())])
+    if clsname == "_UnderLM":
+        return nodes._UnderLM(["private", idx, sorted(attrs.items())])
     if clsname == "SlotLM":
         node = nodes.SlotLM("s%d" % idx)
         if attrs:
@@ -86,6 +88,8 @@ def state_of(node):
         return [("name", node.name), ("tag", getattr(node, "tag", None))]
     if isinstance(node, nodes.StrSlotLM):
         return [("payload", getattr(node, "payload", "<payload missing>"))]
+    if isinstance(node, nodes._UnderLM):
+        return [("private payload", getattr(node, "_UnderLM__payload", "<payload missing>"))]
     slots = [("slot:" + k, getattr(node, k, "<unset>")) for k in nodes.Record.__slots__] if isinstance(node, nodes.Record) else []
     return slots + sorted((k, v) for k, v in vars(node).items() if not (k in BOOK or k.startswith("_NodeMixin__") or k.startswith("_LightNodeMixin__")))
 
@@ -184,7 +188,7 @@ def check_case(case, acc):
     victim = mapping[id(tree[-1])]
     victim.parent = None
     first = mapping[id(tree[0])]
-    if not isinstance(first, (SymlinkNodeMixin, nodes.SlotLM, nodes.StrSlotLM)):
+    if not isinstance(first, (SymlinkNodeMixin, nodes.SlotLM, nodes.StrSlotLM, nodes._UnderLM)):
         first.extra_attribute = "changed"
     else:
         del first.children
@@ -208,7 +212,7 @@ def check_case(case, acc):
     tree[-1].parent = None
     if len(tree) > 2:
         tree[1].children = []
-    if not isinstance(tree[0], (SymlinkNodeMixin, nodes.SlotLM, nodes.StrSlotLM)):
+    if not isinstance(tree[0], (SymlinkNodeMixin, nodes.SlotLM, nodes.StrSlotLM, nodes._UnderLM)):
         tree[0].extra_attribute = "changed too"
     if full_state(copies) != snap_copy:
         raise Violation("independence", "%s: mutating the original changed the copy" % ctx)
@@ -249,9 +253,9 @@ SCHEMES = [
     ("nm-slotdict", ["SlotDictNM", "Node", "SlotDictNM"], NM_METHODS[2:]),
     ("nm-userlinks", ["Node", "PropLink", "SlotLink", "PlainLink"], NM_METHODS[2:]),
     ("lm-slots", ["SlotLM"], LM_METHODS),
-    ("lm-mix", ["DictLM", "SlotLM", "StrSlotLM"], LM_METHODS),
+    ("lm-mix", ["DictLM", "SlotLM", "StrSlotLM", "_UnderLM"], LM_METHODS),
 ]
-SAMPLE_ATTRS = [[["a", {"t": "int", "v": 1}], ["b", {"t": "list", "v": [{"t": "str", "v": "x"}]}]], [], [["c", {"t": "dict", "v": [["k", {"t": "none"}]]}]]]
+SAMPLE_ATTRS = [[["a", {"t": "int", "v": 1}], ["_parent", {"t": "str", "v": "data, not a link"}], ["b", {"t": "list", "v": [{"t": "str", "v": "x"}]}]], [["_children", {"t": "int", "v": 7}]], [["c", {"t": "dict", "v": [["k", {"t": "none"}]]}]]]
 
 
 def _enum_cases(max_nodes, index, count):
@@ -277,7 +281,7 @@ def _enum_cases(max_nodes, index, count):
                     yield case
 
 
-ATTR_KEY = st.text(alphabet="abcdxyz_", min_size=1, max_size=3).filter(lambda k: k not in ("name", "tag"))
+ATTR_KEY = st.one_of(st.text(alphabet="abcdxyz_", min_size=1, max_size=3), st.sampled_from(["_parent", "_children", "_NodeMixin", "parents", "_c"])).filter(lambda k: k not in ("name", "tag"))
 
 
 @st.composite
